@@ -275,6 +275,7 @@ func (s *session) tryToResume(sprint *sprint, waitingRun flows.Run, resume flows
 
 	s.status = flows.SessionStatusActive
 	s.currentResume = resume
+	s.batchStart = false // only applies to the sprint started by the trigger, and isn't persisted with the session
 
 	logEvent := func(e flows.Event) {
 		waitingRun.LogEvent(step, e)
